@@ -9,7 +9,9 @@ the same `Template(filename=…, module_directory=…)`.  Each is the step seque
 regenerated writer, one at a time] · `load` · [re-check: other magic number / other template file ·
 `read source + compile` · writer actions · `load`].
 
-Between any two steps any other process may take steps, the source may be modified (`SItem.modify`) and the
+The writer actions are those of the code as it is (`mkstemp`, the write through the file object - which passes
+through a half-written state -, the close of the `with` block, the rename); a process killed between two of
+them is a process that gets no further step.  Between any two steps any other process may take steps, the source may be modified (`SItem.modify`) and the
 clock may move.  A schedule is an arbitrary `List SItem`.  The bytecode cache is not part of this model (it is
 part of the sequential one); temp names are `2·pid` (first write group) and `2·pid+1` (second).
 -/
